@@ -491,13 +491,11 @@ theorem attrValRest_adv (t : Tokenizer) (h : Ok t) : Adv t (attrValRest t) := by
           · have h5 : Adv t { t2.readByte.1 with pvS := t2.readByte.1.rawE - 1 } := (a3.trans a4).congr (by crfl)
             exact h5.trans (attrValUnquotedGo_adv _ h5.ok)
 
-theorem readTagAttrVal_adv (t : Tokenizer) (h : Ok t) : Adv t (readTagAttrVal t) := by
-  unfold readTagAttrVal
+theorem attrValGo_adv (t : Tokenizer) (h : Ok t) : Adv t (attrValGo t) := by
+  unfold attrValGo
   simp only
-  have h0 : Adv t { t with pvS := t.rawE, pvE := t.rawE } := (Adv.refl h).congr (by crfl)
-  generalize ({ t with pvS := t.rawE, pvE := t.rawE } : Tokenizer) = t0 at *
-  have a1 := h0.trans (skipWhiteSpace_adv _ h0.ok)
-  generalize t0.skipWhiteSpace = t1 at *
+  have a1 := skipWhiteSpace_adv _ h
+  generalize t.skipWhiteSpace = t1 at *
   split
   · exact a1
   · have a2 := readByte_adv a1.ok
@@ -508,6 +506,11 @@ theorem readTagAttrVal_adv (t : Tokenizer) (h : Ok t) : Adv t (readTagAttrVal t)
       · exact a1.trans (read_unread_adv a1.ok herr)
       · exact (a1.trans a2).trans (attrValRest_adv _ a2.ok)
 
+theorem readTagAttrVal_adv (t : Tokenizer) (h : Ok t) : Adv t (readTagAttrVal t) := by
+  unfold readTagAttrVal
+  have h0 : Adv t { t with pvS := t.rawE, pvE := t.rawE } := (Adv.refl h).congr (by crfl)
+  exact h0.trans (attrValGo_adv _ h0.ok)
+
 theorem readAttr_adv (t : Tokenizer) (save : Bool) (h : Ok t) : Adv t (readAttr t save) := by
   unfold readAttr
   simp only
@@ -515,14 +518,14 @@ theorem readAttr_adv (t : Tokenizer) (save : Bool) (h : Ok t) : Adv t (readAttr 
   have a2 := a1.trans (readTagAttrVal_adv _ a1.ok)
   generalize t.readTagAttrKey.readTagAttrVal = t2 at *
   split
-  · have a3 : Adv t { t2 with attrs := t2.attrs.push ⟨t2.pkS, t2.pkE, t2.pvS, t2.pvE⟩ } := a2.congr (by crfl)
+  · have a3 : Adv t t2.pushPending := a2.congr (by crfl)
     exact a3.trans (skipWhiteSpace_adv _ a3.ok)
   · exact a2.trans (skipWhiteSpace_adv _ a2.ok)
 
 /-! ### progress of the attribute loop (the `hang` flag is never set) -/
 
-theorem readByte_of_get {t : Tokenizer} {b : Nat} (h : t.buf[t.rawE]? = some b) :
-    t.readByte = ({ t with rawE := t.rawE + 1 }, b) := by
+theorem readByte_get_spec {t : Tokenizer} {b : Nat} (h : t.buf[t.rawE]? = some b) :
+    t.readByte.2 = b ∧ t.readByte.1.rawE = t.rawE + 1 ∧ t.readByte.1.err = t.err ∧ t.readByte.1.buf = t.buf := by
   unfold readByte
   have hlt : t.rawE < t.buf.size := by
     rcases Nat.lt_or_ge t.rawE t.buf.size with h' | h'
@@ -530,7 +533,7 @@ theorem readByte_of_get {t : Tokenizer} {b : Nat} (h : t.buf[t.rawE]? = some b) 
     · simp [Array.getElem?_eq_none h'] at h
   simp only [hlt, dite_true]
   simp [Array.getElem?_eq_getElem hlt] at h
-  rw [h]
+  simp [h]
 
 theorem get_of_readByte {t : Tokenizer} (herr : ¬ t.readByte.1.err = true) :
     t.buf[t.rawE]? = some t.readByte.2 ∧ t.err = false := by
@@ -542,52 +545,865 @@ theorem get_of_readByte {t : Tokenizer} (herr : ¬ t.readByte.1.err = true) :
 
 theorem isWs_61 : isWs 61 = false := by decide
 
+theorem unread1_spec (t : Tokenizer) (h1 : 1 ≤ t.rawE) :
+    (t.unread 1).rawE = t.rawE - 1 ∧ (t.unread 1).err = t.err ∧ (t.unread 1).buf = t.buf := by
+  unfold unread; simp [h1]
+
 theorem attrKeyGo_progress (t : Tokenizer) (b : Nat) (h : Ok t) (herr : t.err = false)
     (hb : t.buf[t.rawE]? = some b) (h62 : b ≠ 62) :
     (b ≠ 61 → t.rawE + 1 ≤ (attrKeyGo t).rawE) ∧
     (b = 61 → (attrKeyGo t).rawE = t.rawE ∧ (attrKeyGo t).err = false ∧ (attrKeyGo t).buf = t.buf) := by
   rw [attrKeyGo]
-  have hr := readByte_of_get hb
+  obtain ⟨e1, e2, e3, e4⟩ := readByte_get_spec hb
   have a1 := readByte_adv h
-  rw [hr] at a1 ⊢
-  simp only [herr, Bool.false_eq_true, dite_false]
-  by_cases h1 : (isWs b || b == 47) = true
+  have hu := unread1_spec t.readByte.1 (by omega)
+  have hrec := (attrKeyGo_adv _ a1.ok).mono
+  generalize t.readByte = r at *
+  subst e1
+  have hre : r.1.err = false := by rw [e3, herr]
+  simp only [hre, Bool.false_eq_true, dite_false]
+  by_cases h1 : (isWs r.2 || r.2 == 47) = true
   · simp only [h1, if_true]
-    have hne : b ≠ 61 := by
-      intro e; subst e; simp [isWs_61] at h1
-    simp [hne]
-    split <;> simp
-  · simp only [h1]
-    by_cases h2 : (b == 61 || b == 62) = true
+    have hne : r.2 ≠ 61 := by
+      intro e; rw [e] at h1; simp [isWs_61] at h1
+    simp only [hne, not_false_eq_true, true_implies, false_implies, and_true]
+    split <;> simp <;> omega
+  · simp only [h1, Bool.false_eq_true, if_false]
+    by_cases h2 : (r.2 == 61 || r.2 == 62) = true
     · simp only [h2, if_true]
-      have he : b = 61 := by
+      have he : r.2 = 61 := by
         simp at h2; omega
-      simp [he, unread, herr]
-    · simp only [h2]
-      have hne : b ≠ 61 := by
-        intro e; subst e; simp at h2
-      simp only [hne, false_implies, and_true]
-      intro _
-      have := (attrKeyGo_adv _ a1.ok).mono
-      simpa using this
+      refine ⟨fun hn => absurd he hn, fun _ => ⟨?_, ?_, ?_⟩⟩
+      · show (r.1.unread 1).rawE = t.rawE
+        omega
+      · show (r.1.unread 1).err = false
+        rw [hu.2.1, hre]
+      · show (r.1.unread 1).buf = t.buf
+        rw [hu.2.2, e4]
+    · simp only [h2, Bool.false_eq_true, if_false]
+      have hne : r.2 ≠ 61 := by
+        intro e; rw [e] at h2; simp at h2
+      simp only [hne, not_false_eq_true, true_implies, false_implies, and_true]
+      omega
 
 theorem skipWhiteSpace_61 (t : Tokenizer) (herr : t.err = false) (hb : t.buf[t.rawE]? = some 61) :
-    t.skipWhiteSpace = (({ t with rawE := t.rawE + 1 } : Tokenizer).unread 1) := by
+    t.skipWhiteSpace.rawE = t.rawE ∧ t.skipWhiteSpace.err = false ∧ t.skipWhiteSpace.buf = t.buf := by
   unfold skipWhiteSpace
   simp only [herr, Bool.false_eq_true, if_false]
   rw [skipWsGo]
-  rw [readByte_of_get hb]
-  simp [herr, isWs_61]
+  obtain ⟨e1, e2, e3, e4⟩ := readByte_get_spec hb
+  have hu := unread1_spec t.readByte.1 (by omega)
+  generalize t.readByte = r at *
+  have hre : r.1.err = false := by rw [e3, herr]
+  simp only [hre, Bool.false_eq_true, dite_false, e1, isWs_61, if_false]
+  refine ⟨by omega, by rw [hu.2.1, hre], by rw [hu.2.2, e4]⟩
 
-theorem readTagAttrVal_progress (t : Tokenizer) (h : Ok t) (herr : t.err = false)
-    (hb : t.buf[t.rawE]? = some 61) : t.rawE + 1 ≤ (readTagAttrVal t).rawE := by
-  unfold readTagAttrVal
+theorem attrValGo_progress (t : Tokenizer) (h : Ok t) (herr : t.err = false)
+    (hb : t.buf[t.rawE]? = some 61) : t.rawE + 1 ≤ (attrValGo t).rawE := by
+  unfold attrValGo
   simp only
+  obtain ⟨s1, s2, s3⟩ := skipWhiteSpace_61 t herr hb
+  have a1 := skipWhiteSpace_adv t h
+  generalize t.skipWhiteSpace = t1 at *
+  have hb1 : t1.buf[t1.rawE]? = some 61 := by rw [s3, s1]; exact hb
+  obtain ⟨e1, e2, e3, e4⟩ := readByte_get_spec hb1
+  have a2 := readByte_adv a1.ok
+  have a3 := (attrValRest_adv _ a2.ok).mono
+  generalize t1.readByte = r at *
+  have hre : r.1.err = false := by rw [e3, s2]
+  simp only [s2, hre, e1, Bool.false_eq_true, if_false, bne_self_eq_false]
+  omega
+
+theorem readAttr_progress (t : Tokenizer) (b : Nat) (save : Bool) (h : Ok t) (herr : t.err = false)
+    (hb : t.buf[t.rawE]? = some b) (h62 : b ≠ 62) : t.rawE + 1 ≤ (readAttr t save).rawE := by
+  unfold readAttr
+  simp only
+  have h0 : Adv t { t with pkS := t.rawE } := (Adv.refl h).congr (by crfl)
+  have hk := attrKeyGo_progress { t with pkS := t.rawE } b h0.ok herr hb h62
+  have a1 := readTagAttrKey_adv t h
+  unfold readTagAttrKey at a1 ⊢
+  generalize ({ t with pkS := t.rawE } : Tokenizer).attrKeyGo = t1 at *
+  have a2 := readTagAttrVal_adv t1 a1.ok
+  have hv : t.rawE + 1 ≤ t1.readTagAttrVal.rawE := by
+    by_cases hb61 : b = 61
+    · obtain ⟨k1, k2, k3⟩ := hk.2 hb61
+      unfold readTagAttrVal at a2 ⊢
+      have h1 : Adv t1 { t1 with pvS := t1.rawE, pvE := t1.rawE } := (Adv.refl a1.ok).congr (by crfl)
+      have := attrValGo_progress { t1 with pvS := t1.rawE, pvE := t1.rawE } h1.ok k2 (by
+        show t1.buf[t1.rawE]? = some 61
+        rw [k3, k1, ← hb61]; exact hb)
+      simp only at this k1
+      omega
+    · have := hk.1 hb61
+      have := a2.mono
+      simp only at *
+      omega
+  generalize t1.readTagAttrVal = t2 at *
+  split
+  · have a3 : Adv t2 t2.pushPending := (Adv.refl a2.ok).congr (by crfl)
+    have := (skipWhiteSpace_adv _ a3.ok).mono
+    have : t2.pushPending.rawE = t2.rawE := rfl
+    omega
+  · have := (skipWhiteSpace_adv _ a2.ok).mono
+    omega
+
+theorem tagAttrsGo_adv (t : Tokenizer) (save : Bool) (h : Ok t) : Adv t (tagAttrsGo t save) := by
+  fun_induction tagAttrsGo t save
+  all_goals (try simp +zetaDelta only at *)
+  case case1 => exact readByte_adv h
+  case case2 t _ hne _ _ =>
+    have herr : ¬ t.readByte.1.err = true := by intro e; simp [e] at hne
+    exact (read_unread_adv h herr).trans (readAttr_adv _ _ (read_unread_adv h herr).ok)
+  case case3 t _ hne _ _ _ ih =>
+    have herr : ¬ t.readByte.1.err = true := by intro e; simp [e] at hne
+    have a1 := (read_unread_adv h herr).trans (readAttr_adv _ save (read_unread_adv h herr).ok)
+    exact a1.trans (ih a1.ok)
+  case case4 t _ hne _ _ hnp =>
+    exfalso
+    have herr : ¬ t.readByte.1.err = true := by intro e; simp [e] at hne
+    have h62 : t.readByte.2 ≠ 62 := by intro e; simp [e] at hne
+    obtain ⟨g1, g2⟩ := get_of_readByte herr
+    obtain ⟨e1, e2, e3, e4⟩ := readByte_get_spec g1
+    have hu := unread1_spec t.readByte.1 (by omega)
+    have a0 := read_unread_adv h herr
+    have hp := readAttr_progress (t.readByte.1.unread 1) t.readByte.2 save a0.ok (by rw [hu.2.1, e3, g2])
+      (by rw [hu.2.2, e4, hu.1, e2]; simpa using g1) h62
+    have a1 := readAttr_adv (t.readByte.1.unread 1) save a0.ok
+    have hbuf := (a0.trans a1).buf
+    have hle := a1.ok.le
+    rw [hbuf] at hnp hle
+    omega
+
+theorem readTag_adv (t : Tokenizer) (save : Bool) (h : Ok t) (h1 : 1 ≤ t.rawE) : Adv t (readTag t save) := by
+  unfold readTag
+  simp only
+  have h0 : Adv t { t with attrs := #[], nAttrRet := 0 } := (Adv.refl h).congr (by crfl)
+  have a1 := h0.trans (readTagName_adv _ h0.ok h1)
+  have a2 := a1.trans (skipWhiteSpace_adv _ a1.ok)
+  generalize (({ t with attrs := #[], nAttrRet := 0 } : Tokenizer).readTagName.skipWhiteSpace) = t2 at *
+  split
+  · exact a2
+  · exact a2.trans (tagAttrsGo_adv _ _ a2.ok)
+
+/-! ### frame lemmas: fields a helper does not touch -/
+
+
+@[simp] theorem readByte_dataE (t : Tokenizer) : t.readByte.1.dataE = t.dataE := by
+  unfold readByte; split <;> rfl
+
+@[simp] theorem unread_dataE (t : Tokenizer) (k : Nat) : (t.unread k).dataE = t.dataE := by
+  unfold unread; split <;> rfl
+
+@[simp] theorem readByte_attrs (t : Tokenizer) : t.readByte.1.attrs = t.attrs := by
+  unfold readByte; split <;> rfl
+
+@[simp] theorem unread_attrs (t : Tokenizer) (k : Nat) : (t.unread k).attrs = t.attrs := by
+  unfold unread; split <;> rfl
+
+@[simp] theorem readByte_nAttrRet (t : Tokenizer) : t.readByte.1.nAttrRet = t.nAttrRet := by
+  unfold readByte; split <;> rfl
+
+@[simp] theorem unread_nAttrRet (t : Tokenizer) (k : Nat) : (t.unread k).nAttrRet = t.nAttrRet := by
+  unfold unread; split <;> rfl
+
+@[simp] theorem readByte_pkS (t : Tokenizer) : t.readByte.1.pkS = t.pkS := by
+  unfold readByte; split <;> rfl
+
+@[simp] theorem unread_pkS (t : Tokenizer) (k : Nat) : (t.unread k).pkS = t.pkS := by
+  unfold unread; split <;> rfl
+
+@[simp] theorem readByte_pkE (t : Tokenizer) : t.readByte.1.pkE = t.pkE := by
+  unfold readByte; split <;> rfl
+
+@[simp] theorem unread_pkE (t : Tokenizer) (k : Nat) : (t.unread k).pkE = t.pkE := by
+  unfold unread; split <;> rfl
+
+@[simp] theorem readByte_pvS (t : Tokenizer) : t.readByte.1.pvS = t.pvS := by
+  unfold readByte; split <;> rfl
+
+@[simp] theorem unread_pvS (t : Tokenizer) (k : Nat) : (t.unread k).pvS = t.pvS := by
+  unfold unread; split <;> rfl
+
+@[simp] theorem readByte_pvE (t : Tokenizer) : t.readByte.1.pvE = t.pvE := by
+  unfold readByte; split <;> rfl
+
+@[simp] theorem unread_pvE (t : Tokenizer) (k : Nat) : (t.unread k).pvE = t.pvE := by
+  unfold unread; split <;> rfl
+
+@[simp] theorem readByte_token (t : Tokenizer) : t.readByte.1.token = t.token := by
+  unfold readByte; split <;> rfl
+
+@[simp] theorem unread_token (t : Tokenizer) (k : Nat) : (t.unread k).token = t.token := by
+  unfold unread; split <;> rfl
+
+@[simp] theorem readByte_textIsRaw (t : Tokenizer) : t.readByte.1.textIsRaw = t.textIsRaw := by
+  unfold readByte; split <;> rfl
+
+@[simp] theorem unread_textIsRaw (t : Tokenizer) (k : Nat) : (t.unread k).textIsRaw = t.textIsRaw := by
+  unfold unread; split <;> rfl
+
+@[simp] theorem readByte_convertNull (t : Tokenizer) : t.readByte.1.convertNull = t.convertNull := by
+  unfold readByte; split <;> rfl
+
+@[simp] theorem unread_convertNull (t : Tokenizer) (k : Nat) : (t.unread k).convertNull = t.convertNull := by
+  unfold unread; split <;> rfl
+
+theorem skipWsGo_frame (t : Tokenizer) : (skipWsGo t).dataS = t.dataS ∧ (skipWsGo t).dataE = t.dataE ∧ (skipWsGo t).attrs = t.attrs ∧ (skipWsGo t).nAttrRet = t.nAttrRet ∧ (skipWsGo t).pkS = t.pkS ∧ (skipWsGo t).pkE = t.pkE ∧ (skipWsGo t).pvS = t.pvS ∧ (skipWsGo t).pvE = t.pvE := by
+  fun_induction skipWsGo t <;> simp_all +zetaDelta
+
+theorem skipWhiteSpace_frame (t : Tokenizer) : (skipWhiteSpace t).dataS = t.dataS ∧ (skipWhiteSpace t).dataE = t.dataE ∧ (skipWhiteSpace t).attrs = t.attrs ∧ (skipWhiteSpace t).nAttrRet = t.nAttrRet ∧ (skipWhiteSpace t).pkS = t.pkS ∧ (skipWhiteSpace t).pkE = t.pkE ∧ (skipWhiteSpace t).pvS = t.pvS ∧ (skipWhiteSpace t).pvE = t.pvE := by
+  unfold skipWhiteSpace; split
+  · simp
+  · exact skipWsGo_frame t
+
+theorem attrKeyGo_frame (t : Tokenizer) : (attrKeyGo t).dataS = t.dataS ∧ (attrKeyGo t).dataE = t.dataE ∧ (attrKeyGo t).attrs = t.attrs ∧ (attrKeyGo t).nAttrRet = t.nAttrRet ∧ (attrKeyGo t).pkS = t.pkS ∧ (attrKeyGo t).pvS = t.pvS ∧ (attrKeyGo t).pvE = t.pvE := by
+  fun_induction attrKeyGo t <;> simp_all +zetaDelta
+
+theorem attrValQuotedGo_frame (t : Tokenizer) (q : Nat) : (attrValQuotedGo t q).dataS = t.dataS ∧ (attrValQuotedGo t q).dataE = t.dataE ∧ (attrValQuotedGo t q).attrs = t.attrs ∧ (attrValQuotedGo t q).nAttrRet = t.nAttrRet ∧ (attrValQuotedGo t q).pkS = t.pkS ∧ (attrValQuotedGo t q).pkE = t.pkE ∧ (attrValQuotedGo t q).pvS = t.pvS := by
+  fun_induction attrValQuotedGo t q <;> simp_all +zetaDelta
+
+theorem attrValUnquotedGo_frame (t : Tokenizer) : (attrValUnquotedGo t).dataS = t.dataS ∧ (attrValUnquotedGo t).dataE = t.dataE ∧ (attrValUnquotedGo t).attrs = t.attrs ∧ (attrValUnquotedGo t).nAttrRet = t.nAttrRet ∧ (attrValUnquotedGo t).pkS = t.pkS ∧ (attrValUnquotedGo t).pkE = t.pkE ∧ (attrValUnquotedGo t).pvS = t.pvS := by
+  fun_induction attrValUnquotedGo t <;> simp_all +zetaDelta
+
+/-! ### spans of the pending attribute -/
+
+theorem attrKeyGo_pk (t : Tokenizer) (h : Ok t) :
+    t.rawE ≤ (attrKeyGo t).pkE ∧ (attrKeyGo t).pkE ≤ (attrKeyGo t).rawE := by
+  fun_induction attrKeyGo t
+  all_goals (try simp +zetaDelta only at *)
+  case case1 => exact ⟨(readByte_adv h).mono, Nat.le_refl _⟩
+  case case2 => have := readByte_pos (t := _) (by assumption); omega
+  case case3 =>
+    have := readByte_succ (t := _) (by assumption)
+    constructor <;> (try simp only) <;> omega
+  case case4 =>
+    have a := read_unread_adv h (by assumption)
+    exact ⟨a.mono, Nat.le_refl _⟩
+  case case5 ih =>
+    have a1 := readByte_adv h
+    have := ih a1.ok
+    have := a1.mono
+    omega
+
+theorem attrValQuotedGo_pv (t : Tokenizer) (q : Nat) (h : Ok t) :
+    t.rawE ≤ (attrValQuotedGo t q).pvE ∧ (attrValQuotedGo t q).pvE ≤ (attrValQuotedGo t q).rawE := by
+  fun_induction attrValQuotedGo t q
+  all_goals (try simp +zetaDelta only at *)
+  case case1 => exact ⟨(readByte_adv h).mono, Nat.le_refl _⟩
+  case case2 => have := readByte_pos (t := _) (by assumption); omega
+  case case3 =>
+    have := readByte_succ (t := _) (by assumption)
+    constructor <;> (try simp only) <;> omega
+  case case4 ih =>
+    have a1 := readByte_adv h
+    have := ih a1.ok
+    have := a1.mono
+    omega
+
+theorem attrValUnquotedGo_pv (t : Tokenizer) (h : Ok t) :
+    t.rawE ≤ (attrValUnquotedGo t).pvE ∧ (attrValUnquotedGo t).pvE ≤ (attrValUnquotedGo t).rawE := by
+  fun_induction attrValUnquotedGo t
+  all_goals (try simp +zetaDelta only at *)
+  case case1 => exact ⟨(readByte_adv h).mono, Nat.le_refl _⟩
+  case case2 => have := readByte_pos (t := _) (by assumption); omega
+  case case3 =>
+    have := readByte_succ (t := _) (by assumption)
+    constructor <;> (try simp only) <;> omega
+  case case4 =>
+    have a := read_unread_adv h (by assumption)
+    exact ⟨a.mono, Nat.le_refl _⟩
+  case case5 ih =>
+    have a1 := readByte_adv h
+    have := ih a1.ok
+    have := a1.mono
+    omega
+
+/-- fields of the tag phase that the attribute-value reader leaves alone -/
+def valF (t : Tokenizer) : Nat × Nat × Array AttrSpan × Nat × Nat × Nat :=
+  (t.dataS, t.dataE, t.attrs, t.nAttrRet, t.pkS, t.pkE)
+
+theorem attrValQuotedGo_valF (t : Tokenizer) (q : Nat) : valF (attrValQuotedGo t q) = valF t := by
+  simp [valF, attrValQuotedGo_frame]
+
+theorem attrValUnquotedGo_valF (t : Tokenizer) : valF (attrValUnquotedGo t) = valF t := by
+  simp [valF, attrValUnquotedGo_frame]
+
+theorem attrValRest_spec (t : Tokenizer) (h : Ok t) (hpv : t.pvS ≤ t.pvE ∧ t.pvE ≤ t.rawE) :
+    valF (attrValRest t) = valF t ∧
+    (attrValRest t).pvS ≤ (attrValRest t).pvE ∧ (attrValRest t).pvE ≤ (attrValRest t).rawE := by
+  unfold attrValRest
+  simp only
+  have a3 := skipWhiteSpace_adv _ h
+  have f3 := skipWhiteSpace_frame t
+  generalize t.skipWhiteSpace = t2 at *
+  have hm := a3.mono
+  split
+  · exact ⟨by simp [valF, f3], by omega, by omega⟩
+  · have a4 := readByte_adv a3.ok
+    have hm4 := a4.mono
+    split
+    · exact ⟨by simp [valF, f3], by simp [f3]; omega, by simp [f3]; omega⟩
+    · rename_i herr2
+      have e2 := readByte_succ herr2
+      split
+      · have hu := unread1_spec t2.readByte.1 (by omega)
+        exact ⟨by simp [valF, f3], by simp [f3]; omega, by simp [f3]; omega⟩
+      · split
+        · have h5 : Adv t { t2.readByte.1 with pvS := t2.readByte.1.rawE } := (a3.trans a4).congr (by crfl)
+          have hf := attrValQuotedGo_valF { t2.readByte.1 with pvS := t2.readByte.1.rawE } t2.readByte.2
+          have hs := (attrValQuotedGo_frame { t2.readByte.1 with pvS := t2.readByte.1.rawE } t2.readByte.2).2.2.2.2.2.2
+          have hp := attrValQuotedGo_pv { t2.readByte.1 with pvS := t2.readByte.1.rawE } t2.readByte.2 h5.ok
+          exact ⟨hf.trans (by simp [valF, f3]), Nat.le_trans (Nat.le_of_eq hs) hp.1, hp.2⟩
+        · split
+          · omega
+          · have h5 : Adv t { t2.readByte.1 with pvS := t2.readByte.1.rawE - 1 } := (a3.trans a4).congr (by crfl)
+            have hf := attrValUnquotedGo_valF { t2.readByte.1 with pvS := t2.readByte.1.rawE - 1 }
+            have hs := (attrValUnquotedGo_frame { t2.readByte.1 with pvS := t2.readByte.1.rawE - 1 }).2.2.2.2.2.2
+            have hp := attrValUnquotedGo_pv { t2.readByte.1 with pvS := t2.readByte.1.rawE - 1 } h5.ok
+            exact ⟨hf.trans (by simp [valF, f3]), Nat.le_trans (Nat.le_of_eq hs) (Nat.le_trans (Nat.sub_le _ _) hp.1), hp.2⟩
+
+theorem attrValGo_spec (t : Tokenizer) (h : Ok t) (hpv : t.pvS ≤ t.pvE ∧ t.pvE ≤ t.rawE) :
+    valF (attrValGo t) = valF t ∧
+    (attrValGo t).pvS ≤ (attrValGo t).pvE ∧ (attrValGo t).pvE ≤ (attrValGo t).rawE := by
+  unfold attrValGo
+  simp only
+  have a1 := skipWhiteSpace_adv _ h
+  have f1 := skipWhiteSpace_frame t
+  generalize t.skipWhiteSpace = t1 at *
+  have hm := a1.mono
+  split
+  · exact ⟨by simp [valF, f1], by omega, by omega⟩
+  · have a2 := readByte_adv a1.ok
+    have hm2 := a2.mono
+    split
+    · exact ⟨by simp [valF, f1], by simp [f1]; omega, by simp [f1]; omega⟩
+    · rename_i herr
+      have e2 := readByte_succ herr
+      split
+      · have hu := unread1_spec t1.readByte.1 (by omega)
+        exact ⟨by simp [valF, f1], by simp [f1]; omega, by simp [f1]; omega⟩
+      · have hr := attrValRest_spec t1.readByte.1 a2.ok (by simp [f1]; omega)
+        refine ⟨by rw [hr.1]; simp [valF, f1], hr.2.1, hr.2.2⟩
+
+theorem readTagAttrVal_spec (t : Tokenizer) (h : Ok t) :
+    valF (readTagAttrVal t) = valF t ∧
+    (readTagAttrVal t).pvS ≤ (readTagAttrVal t).pvE ∧ (readTagAttrVal t).pvE ≤ (readTagAttrVal t).rawE := by
+  unfold readTagAttrVal
   have h0 : Adv t { t with pvS := t.rawE, pvE := t.rawE } := (Adv.refl h).congr (by crfl)
-  rw [skipWhiteSpace_61 _ herr hb]
-  simp only [unread, Nat.le_add_left, if_true, Nat.add_sub_cancel, herr, Bool.false_eq_true, if_false]
-  have hb' : ({ t with pvS := t.rawE, pvE := t.rawE, rawE := t.rawE + 1 - 1 + 1 - 1 } : Tokenizer).buf[t.rawE]? = some 61 := hb
-  sorry
+  have := attrValGo_spec { t with pvS := t.rawE, pvE := t.rawE } h0.ok (by simp)
+  exact ⟨by rw [this.1]; rfl, this.2⟩
+
+/-- every saved attribute span lies inside the buffer -/
+def AttrsOk (t : Tokenizer) : Prop :=
+  ∀ a ∈ t.attrs.toList, a.ks ≤ a.ke ∧ a.ke ≤ t.buf.size ∧ a.vs ≤ a.ve ∧ a.ve ≤ t.buf.size
+
+theorem readAttr_spec (t : Tokenizer) (save : Bool) (h : Ok t) (ha : AttrsOk t) :
+    AttrsOk (readAttr t save) ∧ (readAttr t save).dataS = t.dataS ∧ (readAttr t save).dataE = t.dataE ∧
+    (readAttr t save).nAttrRet = t.nAttrRet := by
+  unfold readAttr
+  simp only
+  have a1 := readTagAttrKey_adv t h
+  have h0 : Adv t { t with pkS := t.rawE } := (Adv.refl h).congr (by crfl)
+  have kf := attrKeyGo_frame { t with pkS := t.rawE }
+  have kp := attrKeyGo_pk { t with pkS := t.rawE } h0.ok
+  unfold readTagAttrKey at a1 ⊢
+  simp only at kf kp
+  generalize ({ t with pkS := t.rawE } : Tokenizer).attrKeyGo = t1 at *
+  have a2 := readTagAttrVal_adv t1 a1.ok
+  have vs := readTagAttrVal_spec t1 a1.ok
+  simp only [valF, Prod.mk.injEq] at vs
+  generalize t1.readTagAttrVal = t2 at *
+  have hle := a2.ok.le
+  have hm2 := a2.mono
+  have hbuf : t2.buf = t.buf := (a1.trans a2).buf
+  split
+  · have a3 : Adv t2 t2.pushPending := (Adv.refl a2.ok).congr (by crfl)
+    have f := skipWhiteSpace_frame t2.pushPending
+    have ab := (skipWhiteSpace_adv _ a3.ok).buf
+    have p1 : t2.pushPending.attrs = t2.attrs.push ⟨t2.pkS, t2.pkE, t2.pvS, t2.pvE⟩ := rfl
+    have p2 : t2.pushPending.dataS = t2.dataS := rfl
+    have p3 : t2.pushPending.dataE = t2.dataE := rfl
+    have p4 : t2.pushPending.nAttrRet = t2.nAttrRet := rfl
+    have p5 : t2.pushPending.buf = t2.buf := rfl
+    generalize t2.pushPending = t3 at *
+    refine ⟨?_, by simp [f, vs, kf, p2], by simp [f, vs, kf, p3], by simp [f, vs, kf, p4]⟩
+    intro a hmem
+    rw [f.2.2.1, p1] at hmem
+    rw [ab, p5, hbuf]
+    simp only [Array.toList_push, List.mem_append, List.mem_singleton] at hmem
+    rcases hmem with hmem | rfl
+    · rw [vs.1.2.2.1, kf.2.2.1] at hmem
+      exact ha a hmem
+    · simp only
+      rw [hbuf] at hle
+      refine ⟨?_, ?_, ?_, ?_⟩ <;> omega
+  · have f := skipWhiteSpace_frame t2
+    have ab := (skipWhiteSpace_adv _ a2.ok).buf
+    refine ⟨?_, by simp [f, vs, kf], by simp [f, vs, kf], by simp [f, vs, kf]⟩
+    intro a hmem
+    rw [f.2.2.1, vs.1.2.2.1, kf.2.2.1] at hmem
+    rw [ab, hbuf]
+    exact ha a hmem
+
+theorem tagAttrsGo_spec (t : Tokenizer) (save : Bool) (h : Ok t) (ha : AttrsOk t) :
+    AttrsOk (tagAttrsGo t save) ∧ (tagAttrsGo t save).dataS = t.dataS ∧ (tagAttrsGo t save).dataE = t.dataE ∧
+    (tagAttrsGo t save).nAttrRet = t.nAttrRet := by
+  fun_induction tagAttrsGo t save
+  all_goals (try simp +zetaDelta only at *)
+  case case1 t _ _ =>
+    refine ⟨?_, by simp, by simp, by simp⟩
+    intro a hmem
+    rw [readByte_attrs] at hmem
+    rw [readByte_buf]
+    exact ha a hmem
+  case case2 t _ hne _ _ =>
+    have herr : ¬ t.readByte.1.err = true := by intro e; simp [e] at hne
+    have a0 := read_unread_adv h herr
+    have := readAttr_spec (t.readByte.1.unread 1) save a0.ok (by
+      intro a hmem; rw [unread_attrs, readByte_attrs] at hmem; rw [a0.buf]; exact ha a hmem)
+    simpa using this
+  case case3 t _ hne _ _ _ ih =>
+    have herr : ¬ t.readByte.1.err = true := by intro e; simp [e] at hne
+    have a0 := read_unread_adv h herr
+    have hs := readAttr_spec (t.readByte.1.unread 1) save a0.ok (by
+      intro a hmem; rw [unread_attrs, readByte_attrs] at hmem; rw [a0.buf]; exact ha a hmem)
+    have a1 := readAttr_adv (t.readByte.1.unread 1) save a0.ok
+    have := ih a1.ok hs.1
+    simp only [unread_dataS, readByte_dataS, unread_dataE, readByte_dataE, unread_nAttrRet, readByte_nAttrRet] at hs
+    exact ⟨this.1, by omega, by omega, by omega⟩
+  case case4 t _ hne _ _ hnp =>
+    -- impossible (see `tagAttrsGo_adv`), but the frame facts hold anyway
+    have herr : ¬ t.readByte.1.err = true := by intro e; simp [e] at hne
+    have a0 := read_unread_adv h herr
+    have := readAttr_spec (t.readByte.1.unread 1) save a0.ok (by
+      intro a hmem; rw [unread_attrs, readByte_attrs] at hmem; rw [a0.buf]; exact ha a hmem)
+    simpa [AttrsOk] using this
+
+theorem tagNameGo_data (t : Tokenizer) (h : Ok t) :
+    (tagNameGo t).dataS = t.dataS ∧ t.rawE ≤ (tagNameGo t).dataE ∧ (tagNameGo t).dataE ≤ (tagNameGo t).rawE ∧
+    (tagNameGo t).attrs = t.attrs ∧ (tagNameGo t).nAttrRet = t.nAttrRet := by
+  fun_induction tagNameGo t
+  all_goals (try simp +zetaDelta only at *)
+  case case1 => exact ⟨by simp, (readByte_adv h).mono, Nat.le_refl _, by simp, by simp⟩
+  case case2 =>
+    have := readByte_succ (t := _) (by assumption)
+    unfold setDataEndBack
+    split
+    · simp; omega
+    · omega
+  case case3 =>
+    have a := read_unread_adv h (by assumption)
+    exact ⟨by simp, a.mono, Nat.le_refl _, by simp, by simp⟩
+  case case4 ih =>
+    have a1 := readByte_adv h
+    have i := ih a1.ok
+    have := a1.mono
+    simp only [readByte_dataS, readByte_attrs, readByte_nAttrRet] at i
+    exact ⟨i.1, by omega, i.2.2.1, i.2.2.2.1, i.2.2.2.2⟩
+
+theorem readTag_spec (t : Tokenizer) (save : Bool) (h : Ok t) (h1 : 1 ≤ t.rawE) :
+    (readTag t save).dataS = t.rawE - 1 ∧ t.rawE ≤ (readTag t save).dataE ∧
+    (readTag t save).dataE ≤ (readTag t save).rawE ∧ AttrsOk (readTag t save) ∧ (readTag t save).nAttrRet = 0 := by
+  unfold readTag
+  simp only
+  have h0 : Adv t { t with attrs := #[], nAttrRet := 0 } := (Adv.refl h).congr (by crfl)
+  have a1 := readTagName_adv _ h0.ok h1
+  unfold readTagName at a1 ⊢
+  have hne : ¬ t.rawE = 0 := by omega
+  simp only [hne, if_false] at a1 ⊢
+  have h00 : Adv t { t with attrs := #[], nAttrRet := 0, dataS := t.rawE - 1 } := (Adv.refl h).congr (by crfl)
+  have d := tagNameGo_data { t with attrs := #[], nAttrRet := 0, dataS := t.rawE - 1 } h00.ok
+  simp only at d
+  generalize ({ t with attrs := #[], nAttrRet := 0, dataS := t.rawE - 1 } : Tokenizer).tagNameGo = t1 at *
+  have a2 := skipWhiteSpace_adv _ a1.ok
+  have f2 := skipWhiteSpace_frame t1
+  generalize t1.skipWhiteSpace = t2 at *
+  have hm := a2.mono
+  have hao : AttrsOk t2 := by
+    intro a hmem; rw [f2.2.2.1, d.2.2.2.1] at hmem; simp at hmem
+  split
+  · exact ⟨by omega, by omega, by omega, hao, by omega⟩
+  · have s := tagAttrsGo_spec t2 save a2.ok hao
+    have hm3 := (tagAttrsGo_adv t2 save a2.ok).mono
+    exact ⟨by omega, by omega, by omega, s.1, by omega⟩
+
+/-! ### `read_start_tag`: the raw-text element lookup -/
+
+theorem extract_toList_cons (a : Array Nat) (p n : Nat) (h : p < a.size) :
+    (a.extract p (p + (n + 1))).toList = a[p] :: (a.extract (p + 1) (p + 1 + n)).toList := by
+  simp only [Array.toList_extract]
+  rw [List.extract_eq_take_drop, List.extract_eq_take_drop]
+  have e1 : p + (n + 1) - p = n + 1 := by omega
+  have e2 : p + 1 + n - (p + 1) = n := by omega
+  rw [e1, e2]
+  have hl : p < a.toList.length := by simpa using h
+  rw [List.drop_eq_getElem_cons hl, List.take_succ_cons]
+  simp
+
+theorem matchLower_spec (t : Tokenizer) (p : Nat) (s : List Nat) (h : matchLower t p s = some true) :
+    (t.buf.extract p (p + s.length)).toList.map lowerByte = s := by
+  induction s generalizing p with
+  | nil => simp
+  | cons c cs ih =>
+    simp only [matchLower] at h
+    split at h
+    · rename_i hlt
+      split at h
+      · simp at h
+      · rename_i hc
+        have := ih (p + 1) h
+        have hc' : lowerByte t.buf[p] = c := by simpa using hc
+        simp only [List.length_cons]
+        rw [extract_toList_cons _ _ _ hlt, List.map_cons, hc', this]
+    · simp at h
+
+theorem matchLower_ne_none (t : Tokenizer) (p : Nat) (s : List Nat) (h : p + s.length ≤ t.buf.size) :
+    matchLower t p s ≠ none := by
+  induction s generalizing p with
+  | nil => simp [matchLower]
+  | cons c cs ih =>
+    simp only [matchLower]
+    simp only [List.length_cons] at h
+    have hlt : p < t.buf.size := by omega
+    simp only [hlt, dite_true]
+    split
+    · simp
+    · exact ih (p + 1) (by omega)
+
+theorem startTagIn_spec (t : Tokenizer) (ss : List (List Nat)) (hd : t.dataS ≤ t.dataE) (hs : t.dataE ≤ t.buf.size) :
+    startTagIn t ss ≠ none ∧
+    (startTagIn t ss = some true → ∃ s ∈ ss, (t.buf.extract t.dataS t.dataE).toList.map lowerByte = s) := by
+  induction ss with
+  | nil => simp [startTagIn]
+  | cons s ss ih =>
+    simp only [startTagIn]
+    have hnlt : ¬ t.dataE < t.dataS := by omega
+    simp only [hnlt, if_false]
+    split
+    · exact ⟨ih.1, fun h => by obtain ⟨s', hm, he⟩ := ih.2 h; exact ⟨s', by simp [hm], he⟩⟩
+    · rename_i hlen
+      have hlen' : t.dataE - t.dataS = s.length := by simpa using hlen
+      have hnn := matchLower_ne_none t t.dataS s (by omega)
+      split
+      · rename_i hm; exact absurd hm hnn
+      · rename_i hm
+        refine ⟨by simp, fun _ => ⟨s, by simp, ?_⟩⟩
+        have := matchLower_spec t t.dataS s hm
+        have e : t.dataS + s.length = t.dataE := by omega
+        rw [e] at this
+        exact this
+      · exact ⟨ih.1, fun h => by obtain ⟨s', hm, he⟩ := ih.2 h; exact ⟨s', by simp [hm], he⟩⟩
+
+theorem rawLookup_spec (t : Tokenizer) (first : Nat) (tbl : List (Nat × List (List Nat)))
+    (hd : t.dataS ≤ t.dataE) (hs : t.dataE ≤ t.buf.size) :
+    rawLookup t first tbl ≠ none ∧
+    (rawLookup t first tbl = some true →
+      ∃ s ∈ tbl.flatMap (·.2), (t.buf.extract t.dataS t.dataE).toList.map lowerByte = s) := by
+  induction tbl with
+  | nil => simp [rawLookup]
+  | cons e tbl ih =>
+    obtain ⟨l, names⟩ := e
+    simp only [rawLookup]
+    split
+    · have := startTagIn_spec t names hd hs
+      exact ⟨this.1, fun h => by obtain ⟨s', hm, he⟩ := this.2 h; exact ⟨s', by simp [hm], he⟩⟩
+    · exact ⟨ih.1, fun h => by obtain ⟨s', hm, he⟩ := ih.2 h; exact ⟨s', by simp [hm], he⟩⟩
+
+/-- every raw-text element name of the regenerated dispatch table is made of lower-case ASCII letters -/
+theorem rawNames_letters : ∀ s ∈ htmlRawDispatch.flatMap (·.2), ∀ c ∈ s, 97 ≤ c ∧ c ≤ 122 := by decide
+
+theorem le_lowerByte (b : Nat) : b ≤ lowerByte b := by
+  unfold lowerByte; split <;> omega
+
+theorem validUtf8_of_ascii (bs : List Nat) (h : ∀ b ∈ bs, b < 128) : validUtf8 bs = true := by
+  unfold validUtf8
+  have : bs.foldl utf8Step (some {}) = some {} := by
+    induction bs with
+    | nil => rfl
+    | cons b bs ih =>
+      have hb : b < 128 := h b (by simp)
+      simp only [List.foldl_cons]
+      have : utf8Step (some {}) b = some {} := by simp [utf8Step, hb]
+      rw [this]
+      exact ih (fun b hb => h b (by simp [hb]))
+  rw [this]
+  rfl
+
+/-- the raw-text context is empty or consists of bytes ≥ 32 (so `raw_tag[i] - 32` cannot underflow) -/
+def TagOk (l : List Nat) : Prop := ∀ c ∈ l, 32 ≤ c
+
+theorem startTagRaw_spec (t1 : Tokenizer) (hd : t1.dataS < t1.dataE) (hs : t1.dataE ≤ t1.buf.size) :
+    startTagRaw t1 = t1 ∨ ∃ bs, startTagRaw t1 = { t1 with rawTag := bs } ∧ TagOk bs := by
+  unfold startTagRaw
+  have hlt : t1.dataS < t1.buf.size := by omega
+  simp only [hlt, dite_true]
+  have hl := rawLookup_spec t1 (lowerByte t1.buf[t1.dataS]) htmlRawDispatch (by omega) hs
+  split
+  · rename_i hnone; exact absurd hnone hl.1
+  · exact Or.inl rfl
+  · rename_i htrue
+    obtain ⟨s, hmem, hs'⟩ := hl.2 htrue
+    have hsl : t1.slice? t1.dataS t1.dataE = some (t1.buf.extract t1.dataS t1.dataE).toList := by
+      unfold slice?
+      have : t1.dataS ≤ t1.dataE ∧ t1.dataE ≤ t1.buf.size := ⟨by omega, hs⟩
+      simp [this]
+    rw [hsl]
+    simp only
+    have hlet := rawNames_letters s hmem
+    have hascii : ∀ b ∈ (t1.buf.extract t1.dataS t1.dataE).toList, b < 128 := by
+      intro b hb
+      have : lowerByte b ∈ s := by rw [← hs']; exact List.mem_map_of_mem hb
+      have := hlet _ this
+      have := le_lowerByte b
+      omega
+    rw [validUtf8_of_ascii _ hascii]
+    simp only [if_true]
+    refine Or.inr ⟨_, rfl, ?_⟩
+    rw [hs']
+    intro c hc
+    have := hlet c hc
+    omega
+
+theorem readStartTag_spec (t : Tokenizer) (h : Ok t) (h2 : 2 ≤ t.rawE) (htag : TagOk t.rawTag) :
+    Adv t { (readStartTag t).1 with rawTag := t.rawTag } ∧ TagOk (readStartTag t).1.rawTag ∧
+    (readStartTag t).1.dataS = t.rawE - 1 ∧ t.rawE ≤ (readStartTag t).1.dataE ∧
+    (readStartTag t).1.dataE ≤ (readStartTag t).1.rawE ∧ AttrsOk (readStartTag t).1 ∧
+    (readStartTag t).1.nAttrRet = 0 := by
+  have a1 := readTag_adv t true h (by omega)
+  have s1 := readTag_spec t true h (by omega)
+  unfold readStartTag
+  simp only
+  generalize t.readTag true = t1 at *
+  have hle := a1.ok.le
+  have hm := a1.mono
+  have base : Adv t { t1 with rawTag := t.rawTag } := a1.congr (by simp [core, a1.rawTag])
+  split
+  · exact ⟨base, by rw [a1.rawTag]; exact htag, s1⟩
+  · have hr := startTagRaw_spec t1 (by omega) (by omega)
+    have hflags : ∀ t2 : Tokenizer, (t2 = t1 ∨ ∃ bs, t2 = { t1 with rawTag := bs } ∧ TagOk bs) →
+        t2.panic = false ∧ t2.utf8Err = false ∧ t2.rawE = t1.rawE ∧ t2.buf = t1.buf ∧
+        Adv t { t2 with rawTag := t.rawTag } ∧ TagOk t2.rawTag ∧ t2.dataS = t1.dataS ∧ t2.dataE = t1.dataE ∧
+        AttrsOk t2 ∧ t2.nAttrRet = t1.nAttrRet := by
+      intro t2 h2
+      rcases h2 with rfl | ⟨bs, rfl, hbs⟩
+      · exact ⟨a1.ok.panic, a1.ok.utf8, rfl, rfl, base, by rw [a1.rawTag]; exact htag, rfl, rfl, s1.2.2.2.1, rfl⟩
+      · exact ⟨a1.ok.panic, a1.ok.utf8, rfl, rfl, base, hbs, rfl, rfl, s1.2.2.2.1, rfl⟩
+    obtain ⟨f1, f2, f3, f4, f5, f6, f7, f8, f9, f10⟩ := hflags _ hr
+    generalize t1.startTagRaw = t2 at *
+    simp only [f1, f2, Bool.or_self, Bool.false_eq_true, if_false]
+    have hno : ¬ (t2.rawE < 2 || t2.buf.size ≤ t2.rawE - 2) = true := by
+      simp only [Bool.or_eq_true, decide_eq_true_eq, not_or]
+      rw [f3, f4]; omega
+    simp only [hno, Bool.false_eq_true, if_false]
+    exact ⟨f5, f6, by omega, by omega, by omega, f9, by omega⟩
+
+/-! ### data spans of comments and declarations -/
+
+@[simp] theorem setDataEndBack_dataS (t : Tokenizer) (k : Nat) : (t.setDataEndBack k).dataS = t.dataS := by
+  unfold setDataEndBack; split <;> rfl
+
+theorem setDataEndBack_spec (t : Tokenizer) (k : Nat) (hk : k ≤ t.rawE) :
+    (t.setDataEndBack k).dataE = t.rawE - k ∧ (t.setDataEndBack k).rawE = t.rawE := by
+  unfold setDataEndBack; simp [hk]
+
+theorem untilCloseAngleGo_data (t : Tokenizer) (h : Ok t) (hd : t.dataS ≤ t.rawE) :
+    (untilCloseAngleGo t).dataS = t.dataS ∧ t.dataS ≤ (untilCloseAngleGo t).dataE ∧
+    (untilCloseAngleGo t).dataE ≤ (untilCloseAngleGo t).rawE := by
+  fun_induction untilCloseAngleGo t with
+  | case1 t r herr =>
+    zd
+    have := (readByte_adv h).mono
+    exact ⟨by simp, by omega, Nat.le_refl _⟩
+  | case2 t r herr hb =>
+    zd
+    have e := readByte_succ herr
+    have s := setDataEndBack_spec t.readByte.1 1 (by omega)
+    rw [e] at s
+    refine ⟨by simp, ?_, ?_⟩ <;> omega
+  | case3 t r herr hb ih =>
+    zd
+    have a1 := readByte_adv h
+    have := ih a1.ok (by have := a1.mono; simp; omega)
+    simpa using this
+
+theorem readUntilCloseAngle_data (t : Tokenizer) (h : Ok t) :
+    (readUntilCloseAngle t).dataS = t.rawE ∧ (readUntilCloseAngle t).dataS ≤ (readUntilCloseAngle t).dataE ∧
+    (readUntilCloseAngle t).dataE ≤ (readUntilCloseAngle t).rawE := by
+  unfold readUntilCloseAngle
+  have h0 : Adv t { t with dataS := t.rawE } := (Adv.refl h).congr (by crfl)
+  have := untilCloseAngleGo_data { t with dataS := t.rawE } h0.ok (Nat.le_refl _)
+  exact ⟨this.1, by rw [this.1]; exact this.2.1, this.2.2⟩
+
+theorem commentGo_data (t : Tokenizer) (dash : Nat) (h : Ok t) (h3 : 3 ≤ t.rawE) :
+    (commentGo t dash).dataS = t.dataS ∧ (commentGo t dash).dataE ≤ (commentGo t dash).rawE := by
+  fun_induction commentGo t dash with
+  | case1 t dash r herr =>
+    zd
+    have := (readByte_adv h).mono
+    have s := setDataEndBack_spec t.readByte.1 (if dash > 2 then 2 else dash) (by split <;> omega)
+    refine ⟨by simp, ?_⟩
+    omega
+  | case2 t dash r herr hb ih =>
+    zd
+    have a1 := readByte_adv h
+    have := ih a1.ok (by have := a1.mono; omega)
+    simpa using this
+  | case3 t dash r herr hb1 hb2 hd =>
+    zd
+    have := (readByte_adv h).mono
+    have s := setDataEndBack_spec t.readByte.1 htmlCommentEndLen (by simp [htmlCommentEndLen]; omega)
+    refine ⟨by simp, ?_⟩
+    omega
+  | case4 t dash r herr hb1 hb2 hd ih =>
+    zd
+    have a1 := readByte_adv h
+    have := ih a1.ok (by have := a1.mono; omega)
+    simpa using this
+  | case5 t dash r herr hb1 hb2 hb3 hd r2 herr2 =>
+    zd
+    exact ⟨by simp, Nat.le_refl _⟩
+  | case6 t dash r herr hb1 hb2 hb3 hd r2 herr2 hb4 =>
+    zd
+    have a1 := readByte_adv h
+    have a2 := readByte_adv a1.ok
+    have := a1.mono
+    have := a2.mono
+    have s := setDataEndBack_spec t.readByte.1.readByte.1 htmlCommentBangEndLen (by simp [htmlCommentBangEndLen]; omega)
+    refine ⟨by simp, ?_⟩
+    omega
+  | case7 t dash r herr hb1 hb2 hb3 hd r2 herr2 hb4 ih =>
+    zd
+    have a1 := readByte_adv h
+    have a2 := readByte_adv a1.ok
+    have := ih a2.ok (by have := a1.mono; have := a2.mono; omega)
+    simpa using this
+  | case8 t dash r herr hb1 hb2 hb3 hd ih =>
+    zd
+    have a1 := readByte_adv h
+    have := ih a1.ok (by have := a1.mono; omega)
+    simpa using this
+  | case9 t dash r herr hb1 hb2 hb3 ih =>
+    zd
+    have a1 := readByte_adv h
+    have := ih a1.ok (by have := a1.mono; omega)
+    simpa using this
+
+theorem readComment_data (t : Tokenizer) (h : Ok t) (h3 : 3 ≤ t.rawE) :
+    (readComment t).dataS ≤ (readComment t).dataE ∧ (readComment t).dataE ≤ (readComment t).rawE := by
+  unfold readComment
+  have h0 : Adv t { t with dataS := t.rawE } := (Adv.refl h).congr (by crfl)
+  have d := commentGo_data { t with dataS := t.rawE } 2 h0.ok h3
+  have m := (commentGo_adv { t with dataS := t.rawE } 2 h0.ok h3).mono
+  simp only at d m ⊢
+  generalize (commentGo { t with dataS := t.rawE } 2) = t1 at *
+  split
+  · simp only; omega
+  · omega
+
+theorem cdataGo_data (t : Tokenizer) (br : Nat) (h : Ok t) (h2 : 2 ≤ t.rawE) (hbr : t.dataS + br ≤ t.rawE) :
+    (cdataGo t br).dataS = t.dataS ∧ t.dataS ≤ (cdataGo t br).dataE ∧ (cdataGo t br).dataE ≤ (cdataGo t br).rawE := by
+  fun_induction cdataGo t br with
+  | case1 t br r herr =>
+    zd
+    have := (readByte_adv h).mono
+    exact ⟨by simp, by omega, Nat.le_refl _⟩
+  | case2 t br r herr hb ih =>
+    zd
+    have a1 := readByte_adv h
+    have e := readByte_succ (t := _) (by assumption)
+    have := ih a1.ok (by omega) (by simp; omega)
+    simpa using this
+  | case3 t br r herr hb1 hb2 hbr' =>
+    zd
+    have e := readByte_succ (t := _) (by assumption)
+    have s := setDataEndBack_spec t.readByte.1 htmlCdataEndLen (by simp [htmlCdataEndLen]; omega)
+    simp only [htmlCdataEndLen, htmlCdataBracketMin] at *
+    refine ⟨by simp, ?_, ?_⟩ <;> omega
+  | case4 t br r herr hb1 hb2 hbr' ih =>
+    zd
+    have a1 := readByte_adv h
+    have := ih a1.ok (by have := a1.mono; omega) (by have := a1.mono; simp; omega)
+    simpa using this
+  | case5 t br r herr hb1 hb2 ih =>
+    zd
+    have a1 := readByte_adv h
+    have := ih a1.ok (by have := a1.mono; omega) (by have := a1.mono; simp; omega)
+    simpa using this
+
+theorem readDocType_data (b t : Tokenizer) (hb : Adv b t) (hd : t.dataS = b.rawE) (h : (readDocType t).2 = true) :
+    (readDocType t).1.dataS ≤ (readDocType t).1.dataE ∧ (readDocType t).1.dataE ≤ (readDocType t).1.rawE := by
+  have hl := declLoop_adv b t htmlDoctypePat hb hd
+  unfold readDocType at h ⊢
+  simp only at h ⊢
+  split
+  · rename_i hf; simp [hf] at h
+  · split
+    · exact ⟨Nat.le_refl _, Nat.le_refl _⟩
+    · have a1 := skipWhiteSpace_adv _ hl.1.ok
+      have := readUntilCloseAngle_data _ a1.ok
+      exact ⟨this.2.1, this.2.2⟩
+
+theorem readCdata_data (b t : Tokenizer) (hb : Adv b t) (hd : t.dataS = b.rawE) (h2 : 2 ≤ b.rawE)
+    (h : (readCdata t).2 = true) :
+    (readCdata t).1.dataS ≤ (readCdata t).1.dataE ∧ (readCdata t).1.dataE ≤ (readCdata t).1.rawE := by
+  have hl := declLoop_adv b t htmlCdataPat hb hd
+  unfold readCdata at h ⊢
+  simp only at h ⊢
+  split
+  · rename_i hf; simp [hf] at h
+  · have h0 : Adv b { (declLoop t htmlCdataPat).1 with dataS := (declLoop t htmlCdataPat).1.rawE } := hl.1.congr (by crfl)
+    have := cdataGo_data { (declLoop t htmlCdataPat).1 with dataS := (declLoop t htmlCdataPat).1.rawE } 0 h0.ok
+      (by have := h0.mono; simp at this ⊢; omega) (by simp)
+    exact ⟨by rw [this.1]; exact this.2.1, this.2.2⟩
+
+theorem markupRest_data (b t : Tokenizer) (hb : Adv b t) (hd : t.dataS = b.rawE) (h2 : 2 ≤ b.rawE) :
+    (markupRest t).1.dataS ≤ (markupRest t).1.dataE ∧ (markupRest t).1.dataE ≤ (markupRest t).1.rawE := by
+  have hd' := readDocType_adv b t hb hd
+  have dd := readDocType_data b t hb hd
+  unfold markupRest
+  simp only
+  generalize t.readDocType = d at *
+  split
+  · rename_i ht; exact dd ht
+  · rename_i hdf
+    have hdf' := hd'.2 (by simpa using hdf)
+    split
+    · have hc := readCdata_adv b _ hd'.1 hdf' h2
+      have dc := readCdata_data b _ hd'.1 hdf' h2
+      generalize d.1.readCdata = c at *
+      split
+      · rename_i ht; exact dc ht
+      · have := readUntilCloseAngle_data _ hc.ok
+        exact ⟨this.2.1, this.2.2⟩
+    · have := readUntilCloseAngle_data _ hd'.1.ok
+      exact ⟨this.2.1, this.2.2⟩
+
+theorem markupGo_data (t : Tokenizer) (h : Ok t) (h2 : 2 ≤ t.rawE) (hd : t.dataS = t.rawE) :
+    (markupGo t).1.dataS ≤ (markupGo t).1.dataE ∧ (markupGo t).1.dataE ≤ (markupGo t).1.rawE := by
+  unfold markupGo
+  simp only
+  have a1 := readByte_adv h
+  have a2 := readByte_adv a1.ok
+  have m1 := a1.mono
+  have m2 := a2.mono
+  split
+  · simp only [readByte_dataS]; omega
+  · rename_i herr1
+    split
+    · simp only [readByte_dataS]; omega
+    · rename_i herr2
+      have e1 := readByte_succ herr1
+      have e2 := readByte_succ herr2
+      split
+      · exact readComment_data _ a2.ok (by omega)
+      · exact markupRest_data t _ (unread_adv 2 (a1.trans a2) (by omega)) (by simp [hd]) h2
+
+theorem readMarkupDeclaration_data (t : Tokenizer) (h : Ok t) (h2 : 2 ≤ t.rawE) :
+    (readMarkupDeclaration t).1.dataS ≤ (readMarkupDeclaration t).1.dataE ∧
+    (readMarkupDeclaration t).1.dataE ≤ (readMarkupDeclaration t).1.rawE := by
+  unfold readMarkupDeclaration
+  have h0 : Adv t { t with dataS := t.rawE } := (Adv.refl h).congr (by crfl)
+  exact markupGo_data _ h0.ok h2 rfl
 
 end Tokenizer
 end Rio.Html
